@@ -79,3 +79,23 @@ Print Assumptions C08_parse_float_no_UB_shipped.
 Print Assumptions C08_rawvec_history_no_ub.
 Print Assumptions C08_rawvec_step_total.
 Print Assumptions C08_rawvec_shl_limbs_refines.
+
+(** ON THE REGENERATED SOURCE (tools/rs2coq): no unchecked operation of the translation of parse_float is ever executed outside its side condition, for arbitrary bytes. *)
+From ML Require Import model.SrcLib model.SrcLibFront gen.Src gen.SrcBigint gen.SrcSlow gen.SrcParse gen.SrcFrontSimple gen.SrcFrontEtc gen.SrcFrontFuzz gen.SrcFrontTest proofs.SrcEqParse proofs.SrcEqSlow proofs.SrcEqFront proofs.SrcFinal.
+
+Theorem C08_rs_parse_float_eq_bytes :
+  forall (c : config) (f : format) (b : build) (i fr : list Z) (e : Z),
+         f = F32 \/ f = F64 ->
+         zlen i + zlen fr < 2 ^ 63 ->
+         rs_parse_float c TABLES BTABLES LIMITS f b i fr e = parse_float c TABLES BTABLES LIMITS f b i fr e.
+Proof. exact rs_parse_float_eq_bytes. Qed.
+
+Theorem C08_rs_parse_float_no_UB :
+  forall (c : config) (f : format) (b : build) (i fr : list Z) (e : Z) (k : ub_kind),
+         f = F32 \/ f = F64 ->
+         zlen i + zlen fr < 2 ^ 63 ->
+         ub_params_ok c TABLES f = true -> rs_parse_float c TABLES BTABLES LIMITS f b i fr e <> UB k.
+Proof. exact rs_parse_float_no_UB. Qed.
+
+Print Assumptions C08_rs_parse_float_eq_bytes.
+Print Assumptions C08_rs_parse_float_no_UB.
